@@ -1,16 +1,22 @@
 (* Properties/C09.v — printing a parsed query and parsing it again changes
-   nothing (PARTIAL: the reparse / fixed-point / userString theorems cover the
-   fragment of key paths with `?` marks and function calls with literal
-   arguments, any UTF-8 keys and literals; filters, groups and path / group
-   arguments are covered by the correspondence check only — and the full
-   statement is REFUTED for nested path arguments, see
-   C09_nested_path_argument_refuted: a recorded finding).
-   Statements only (restated as Coq prints them); proofs in Proofs/C09.v. *)
+   nothing.  Statements only (restated as Coq prints them); proofs in
+   Proofs/C09.v and Proofs/C09b*.v.
+   [canon]: operations whose keys are identifiers, functions are known,
+   groups are AND/OR, literals are in the round-trip classes, and whose stored
+   userStrings are the compact rendering [render] of their own node — which is
+   what the parser produces for the strict grammar [strict_query] (the image of
+   render).  For these, parse ∘ render and parse ∘ Sprint are the identity up
+   to struct_eq (exactly the identity when the keyword is written), Sprint is
+   a fixed point, results agree on every data value and UserString reproduces
+   the text: C09b_end_to_end.  [wcanon] weakens the class to what Sprint
+   cannot see.  Outside the class the statement is REFUTED for nested path
+   arguments written with white space or skipped tokens (recorded finding):
+   C09_nested_path_argument_refuted. *)
 From Coq Require Import String List Permutation.
 From Mpath.Model Require Import Base Dec Types GoVal Ast Lexer Parser Printer Funcs Eval.
 From Mpath.Generated Require Import Escapes FuncTable.
-From Mpath.Proofs Require C09.
-Import Mpath.Proofs.C09.
+From Mpath.Proofs Require C09 C09b1 C09b2 C09b3 C09b4 C09b.
+Import Mpath.Proofs.C09 Mpath.Proofs.C09b1 Mpath.Proofs.C09b2 Mpath.Proofs.C09b3 Mpath.Proofs.C09b4 Mpath.Proofs.C09b.
 
 Theorem C09_same_result :
   forall (uni : uclass) (eng : engines) (fuel : nat) (n n' : node) (cur orig : gv), struct_eq_node n n' -> eval uni eng fuel n cur orig = eval uni eng fuel n' cur orig.
@@ -67,35 +73,50 @@ Theorem C09_key_roundtrip :
 Proof. exact Mpath.Proofs.C09.C09_key_roundtrip. Qed.
 Print Assumptions C09_key_roundtrip.
 
-Theorem C09_keypath_reparse :
-  forall (uni : uclass) (root : bool) (ks : list (str * bool)), Forall (good_key uni) ks -> parse_string uni (key_text root ks) = Ok (TopP (Path false root false false (key_ops ks) (key_text root ks))).
-Proof. exact Mpath.Proofs.C09.C09_keypath_reparse. Qed.
-Print Assumptions C09_keypath_reparse.
+Theorem C09_C09b_render_parses_exact :
+  forall (uni : uclass) (a : top), canon uni a -> parse_string uni (render a) = Ok a.
+Proof. exact Mpath.Proofs.C09b.C09b_render_parses_exact. Qed.
+Print Assumptions C09_C09b_render_parses_exact.
 
-Theorem C09_keypath_struct_eq :
-  forall (uni : uclass) (inv root me : bool) (ops : list pathop) (us : str) (ks : list (str * bool)), ops_keys ops ks -> Forall (good_key uni) ks -> let a := Path inv root false me ops us in exists a' : path, parse_string uni (sprint_top (TopP a)) = Ok (TopP a') /\ struct_eq (TopP a) (TopP a') /\ sprint_top (TopP a') = sprint_top (TopP a) /\ path_us a' = sprint_top (TopP a).
-Proof. exact Mpath.Proofs.C09.C09_keypath_struct_eq. Qed.
-Print Assumptions C09_keypath_struct_eq.
+Theorem C09_C09b_render_parses :
+  forall (uni : uclass) (a : top), canon uni a -> exists a' : top, parse_string uni (render a) = Ok a' /\ struct_eq a a' /\ top_us a' = render a.
+Proof. exact Mpath.Proofs.C09b.C09b_render_parses. Qed.
+Print Assumptions C09_C09b_render_parses.
 
-Theorem C09_litfunc_reparse :
-  forall (uni : uclass) (inv root me : bool) (ops : list pathop) (us : str), Forall (frag_op uni) ops -> let a := Path inv root false me ops us in exists a' : path, parse_string uni (sprint_top (TopP a)) = Ok (TopP a') /\ struct_eq (TopP a) (TopP a') /\ sprint_top (TopP a') = sprint_top (TopP a) /\ path_us a' = sprint_top (TopP a).
-Proof. exact Mpath.Proofs.C09.C09_litfunc_reparse. Qed.
-Print Assumptions C09_litfunc_reparse.
+Theorem C09_C09b_sprint_parses_exact :
+  forall (uni : uclass) (a : top), canon uni a -> kws a -> parse_string uni (sprint_top a) = Ok a.
+Proof. exact Mpath.Proofs.C09b.C09b_sprint_parses_exact. Qed.
+Print Assumptions C09_C09b_sprint_parses_exact.
 
-Theorem C09_litfunc_reparse_text :
-  forall (uni : uclass) (root : bool) (ops : list pathop), Forall (frag_op uni) ops -> parse_string uni (fc_text root ops) = Ok (TopP (Path false root false false (fc_norm_ops ops) (fc_text root ops))).
-Proof. exact Mpath.Proofs.C09.C09_litfunc_reparse_text. Qed.
-Print Assumptions C09_litfunc_reparse_text.
+Theorem C09_C09b_sprint_reparses :
+  forall (uni : uclass) (a : top), canon uni a -> exists a' : top, parse_string uni (sprint_top a) = Ok a' /\ struct_eq a a' /\ sprint_top a' = sprint_top a.
+Proof. exact Mpath.Proofs.C09b.C09b_sprint_reparses. Qed.
+Print Assumptions C09_C09b_sprint_reparses.
 
-Theorem C09_litfunc_same_result :
-  forall (uni : uclass) (eng : engines) (inv root me : bool) (ops : list pathop) (us : str) (data : gv), Forall (frag_op uni) ops -> let a := Path inv root false me ops us in exists a' : path, parse_string uni (sprint_top (TopP a)) = Ok (TopP a') /\ do_top uni eng (TopP a') data = do_top uni eng (TopP a) data.
-Proof. exact Mpath.Proofs.C09.C09_litfunc_same_result. Qed.
-Print Assumptions C09_litfunc_same_result.
+Theorem C09_C09b_sprint_reparses_weak :
+  forall (uni : uclass) (a : top), wcanon uni a -> (dp_top a <= S (Datatypes.length (top_us a)))%nat -> parse_string uni (sprint_top a) = Ok (fixup a) /\ struct_eq a (fixup a) /\ sprint_top (fixup a) = sprint_top a /\ canon uni (fixup a) /\ kws (fixup a) /\ parse_string uni (sprint_top (fixup a)) = Ok (fixup a).
+Proof. exact Mpath.Proofs.C09b.C09b_sprint_reparses_weak. Qed.
+Print Assumptions C09_C09b_sprint_reparses_weak.
 
-Theorem C09_litfunc_names_are_keys :
-  forallb (fun d : fdesc => str_eqb (bs (fd_name d)) (bs (fd_key d))) func_table = true /\ forallb (fun d : fdesc => fc_name_ok (bs (fd_key d))) func_table = true.
-Proof. exact Mpath.Proofs.C09.C09_litfunc_names_are_keys. Qed.
-Print Assumptions C09_litfunc_names_are_keys.
+Theorem C09_C09b_parse_is_canon :
+  forall (uni : uclass) (s : str) (a : top), strict_query uni s -> parse_string uni s = Ok a -> canon uni a /\ render a = s.
+Proof. exact Mpath.Proofs.C09b.C09b_parse_is_canon. Qed.
+Print Assumptions C09_C09b_parse_is_canon.
+
+Theorem C09_C09b_strict_decide :
+  forall (uni : uclass) (s : str) (t : top), canon_b uni t && str_eqb (render t) s = true -> strict_query uni s.
+Proof. exact Mpath.Proofs.C09b.C09b_strict_decide. Qed.
+Print Assumptions C09_C09b_strict_decide.
+
+Theorem C09_C09b_end_to_end :
+  forall (uni : uclass) (eng : engines) (s : str) (t : top) (data : gv), strict_query uni s -> parse_string uni s = Ok t -> top_us t = s /\ (exists t' : top, parse_string uni (sprint_top t) = Ok t' /\ struct_eq t t' /\ sprint_top t' = sprint_top t /\ parse_string uni (sprint_top t') = Ok t' /\ do_top uni eng t' data = do_top uni eng t data).
+Proof. exact Mpath.Proofs.C09b.C09b_end_to_end. Qed.
+Print Assumptions C09_C09b_end_to_end.
+
+Theorem C09_C09b_end_to_end_weak :
+  forall (uni : uclass) (eng : engines) (t : top) (data : gv), wcanon uni t -> (dp_top t <= S (Datatypes.length (top_us t)))%nat -> exists t' : top, parse_string uni (sprint_top t) = Ok t' /\ struct_eq t t' /\ sprint_top t' = sprint_top t /\ parse_string uni (sprint_top t') = Ok t' /\ do_top uni eng t' data = do_top uni eng t data.
+Proof. exact Mpath.Proofs.C09b.C09b_end_to_end_weak. Qed.
+Print Assumptions C09_C09b_end_to_end_weak.
 
 Theorem C09_keypath_userstring :
   forall (uni : uclass) (root : bool) (ks : list (str * bool)), Forall (good_key uni) ks -> exists t : top, parse_string uni (key_text root ks) = Ok t /\ top_us t = key_text root ks.
@@ -117,7 +138,7 @@ Theorem C09_nested_skipped_separator_refuted :
 Proof. exact Mpath.Proofs.C09.C09_nested_skipped_separator_refuted. Qed.
 Print Assumptions C09_nested_skipped_separator_refuted.
 
-Theorem C09_litfunc_ex1 :
-  parse_string uni_ascii (bs "$.a?.Equal(""x\ty"",-12.5,true).Count()") = Ok (TopP (Path false true false false [PIdent (bs "a") true (bs "a?"); PFunc (Func false (bs "Equal") [FPStr [chr 120; chr 9; chr 121]; FPNum {| coef := -125; dexp := -1 |}; FPBool true] (bs "Equal(""x\ty"",-12.5,true)")); PFunc (Func false (bs "Count") [] (bs "Count()"))] (bs "$.a?.Equal(""x\ty"",-12.5,true).Count()"))).
-Proof. exact Mpath.Proofs.C09.C09_litfunc_ex1. Qed.
-Print Assumptions C09_litfunc_ex1.
+Theorem C09_C09b_ex2 :
+  forall (eng : engines) (data : gv), let t := c9b_parse c9b_q2 in parse_string uni_ascii (bs c9b_q2) = Ok t /\ top_us t = bs c9b_q2 /\ (exists t' : top, parse_string uni_ascii (sprint_top t) = Ok t' /\ struct_eq t t' /\ sprint_top t' = sprint_top t /\ parse_string uni_ascii (sprint_top t') = Ok t' /\ do_top uni_ascii eng t' data = do_top uni_ascii eng t data).
+Proof. exact Mpath.Proofs.C09b.C09b_ex2. Qed.
+Print Assumptions C09_C09b_ex2.
